@@ -167,6 +167,12 @@ fn clip(s: &str) -> String {
 }
 
 pub fn evaluate(property: &str, driver: &str, cases: Vec<Case>) -> Report {
+    // the pass against the library built without debug assertions and overflow checks evaluates the oracles only (the model
+    // comparison was made by the first pass, on the same requests)
+    let mut cases = cases;
+    if std::env::var("VHARNESS_ORACLES_ONLY").ok().as_deref() == Some("1") {
+        for c in cases.iter_mut() { c.proj = Proj::None; c.alt = None; c.spec = None; }
+    }
     let idxs: Vec<usize> = cases.iter().enumerate().filter(|(_, c)| c.proj != Proj::None).map(|(i, _)| i).collect();
     let ops: Vec<&str> = idxs.iter().map(|i| cases[*i].op.as_str()).collect();
     let model = run_driver(driver, &ops);
